@@ -771,14 +771,115 @@ fn exec_twin(out: &mut Out, line: &str, w: &[&str]) -> (String, bool) {
     }
     let class = first.unwrap();
     out.count(&format!("twin.{}.{}", kind, class.split(' ').next().unwrap()));
-    let printed = if kind == "registry" || kind == "struct" { "-".to_string() } else { class.clone() };
+    let printed = if kind == "registry" { "-".to_string() } else { class.clone() };
     (format!("{} {} exec {} links {}", idx, printed, exec, links_with_ctx), class != "rej 4" || bfmt <= 3)
+}
+
+// ------------------------------------------------------------------------------------------
+// (v) a derived struct behind the router: RegisteredStruct::handle + #[derive(RepeStruct)]
+// ------------------------------------------------------------------------------------------
+#[derive(Default, Serialize, Deserialize, repe::RepeStruct)]
+struct Deep {
+    z: Value,
+}
+#[derive(Default, Serialize, Deserialize, repe::RepeStruct)]
+struct Inner {
+    x: Value,
+    #[repe(nested)]
+    deep: Deep,
+}
+#[derive(Default, Serialize, Deserialize, repe::RepeStruct)]
+#[repe(methods(echo(&self, v: Value) -> Value, ping(&self) -> i64, touch(&mut self)))]
+struct Demo {
+    a: Value,
+    #[repe(readonly)]
+    ro: Value,
+    #[repe(nested)]
+    inner: Inner,
+}
+impl Demo {
+    fn echo(&self, v: Value) -> Value {
+        v
+    }
+    fn ping(&self) -> i64 {
+        7
+    }
+    fn touch(&mut self) {}
+}
+
+struct DState {
+    demo: Arc<Mutex<Demo>>,
+    written: BTreeMap<String, Vec<u8>>, // relative path -> canonical JSON last accepted by a write
+    ops: Vec<String>,
+}
+impl DState {
+    fn new() -> DState {
+        DState { demo: Arc::new(Mutex::new(Demo::default())), written: BTreeMap::new(), ops: vec![] }
+    }
+}
+
+fn exec_dstruct(out: &mut Out, ds: &mut DState, line: &str, w: &[&str]) -> (String, bool) {
+    let idx = w[1];
+    let bad = || (format!("{} bad-op", idx), false);
+    if w.len() != 9 {
+        return bad();
+    }
+    let (Some(root), Some(path), Ok(bfmt), Some(body)) = (unshex(w[2]), unshex(w[3]), w[4].parse::<u16>(), unhex(w[5])) else { return bad() };
+    ds.ops.push(line.to_string());
+    let ops = ds.ops.clone();
+    let mut router = Router::new();
+    // the lock kind is a function of the op index: Mutex via register_struct_shared, or the same
+    // Arc<Mutex<_>> through with_struct_shared
+    if idx.len() % 2 == 0 {
+        router.register_struct_shared::<Demo, Mutex<Demo>>(&root, ds.demo.clone());
+    } else {
+        router = router.with_struct_shared::<Demo, Mutex<Demo>>(&root, ds.demo.clone());
+    }
+    let Some(h) = router.get(&path) else {
+        out.count("dstruct.none");
+        return (format!("{} none", idx), false);
+    };
+    let req = request(5, &path, &body, bfmt);
+    let view = MessageView { header: req.header, query: &req.query, body: &req.body };
+    let ctx = CallContext::detached(&path);
+    let r = catch(|| h.handle_view(&view, &ctx));
+    let obs = match r {
+        Err(_) => {
+            out.oracle_fail("router.derive.panic", &format!("derived struct at {:?} panicked on {:?}", root, path), &ops);
+            "PANIC".to_string()
+        }
+        Ok(Err(_)) => "fail".to_string(),
+        Ok(Ok(m)) if m.header.ec != 0 => format!("err {}", m.header.ec),
+        Ok(Ok(m)) => {
+            let is_obj = serde_json::from_slice::<Value>(&m.body).map(|v| v.is_object()).unwrap_or(false);
+            if body.is_empty() && is_obj { "whole".to_string() } else { format!("ok {}", hex(&m.body)) }
+        }
+    };
+    out.count(&format!("dstruct.{}", obs.split(' ').next().unwrap()));
+    // ---- direct oracle: read-after-write, keyed by the relative path text (independent of the model)
+    let norm_root = if root.is_empty() || root == "/" { String::new() } else if root.starts_with('/') { root.clone() } else { format!("/{}", root) };
+    let rel = path[norm_root.len().min(path.len())..].to_string();
+    let is_method = rel == "/echo" || rel == "/ping" || rel == "/touch";
+    if !is_method {
+        if !body.is_empty() && obs == format!("ok {}", hex(b"null")) {
+            if let Some(c) = unhex(w[6]) {
+                ds.written.insert(rel.clone(), c);
+            }
+        } else if body.is_empty() {
+            if let (Some(want), Some(got)) = (ds.written.get(&rel), obs.strip_prefix("ok ")) {
+                if hex(want) != got {
+                    out.oracle_fail("router.derive.read_after_write", &format!("read of {:?} returned {} after {} was written", path, got, hex(want)), &ops);
+                }
+            }
+        }
+    }
+    (format!("{} {}", idx, obs), obs != "none")
 }
 
 // ------------------------------------------------------------------------------------------
 // execution of op lines
 // ------------------------------------------------------------------------------------------
-fn exec_line(out: &mut Out, sc: &mut Scen, line: &str) {
+fn exec_line(out: &mut Out, sc: &mut Scen, ds: &mut DState, line: &str) {
     let w = words(line);
     if w.len() < 2 {
         return;
@@ -850,6 +951,15 @@ fn exec_line(out: &mut Out, sc: &mut Scen, line: &str) {
                 }
                 None => (format!("{} bad-op", idx), false),
             };
+            out.case(line, &obs, nt);
+        }
+        "dreset" => {
+            *ds = DState::new();
+            ds.ops.push(line.to_string());
+            out.config(line);
+        }
+        "dstruct" => {
+            let (obs, nt) = exec_dstruct(out, ds, line, &w);
             out.case(line, &obs, nt);
         }
         "twin" => {
@@ -1026,6 +1136,45 @@ impl Gen {
         }
     }
 
+    // ---- (v) derived struct behind a mount
+    fn derived_scenario(&mut self) {
+        const ROOTS: &[&str] = &["/d", "", "/x/y", "d"];
+        const PATHS: &[&str] = &[
+            "", "/a", "/ro", "/inner", "/inner/x", "/inner/deep", "/inner/deep/z", "/echo", "/ping", "/touch", "/", "/a/", "/a/b", "/nope", "/inner/nope",
+            "/inner/deep/z/q", "/inner//x", "/ping/x", "/a~0", "/inner~1x", "/inner/deep/z/1/2/3/4/5/6/7/8/9/10/11/12/13/14/15/16",
+        ];
+        self.push("dreset", "");
+        let root = *self.rng.pick(ROOTS);
+        let norm = if root.is_empty() { String::new() } else if root.starts_with('/') { root.to_string() } else { format!("/{}", root) };
+        for _ in 0..self.rng.range(8, 30) {
+            let rel = *self.rng.pick(PATHS);
+            let path = format!("{}{}", norm, rel);
+            let v: Value = match self.rng.below(7) {
+                0 => json!(self.rng.below(1000)),
+                1 => json!("s\"x/~"),
+                2 => json!([1, "two", null, [3.5]]),
+                3 => json!(true),
+                4 => json!(null),
+                5 => json!(-7.25),
+                _ => json!(format!("v{}", self.rng.below(50))),
+            };
+            let (bfmt, body): (u16, Vec<u8>) = match self.rng.below(12) {
+                0..=4 => (2, vec![]),
+                5..=7 => (2, serde_json::to_vec(&v).unwrap()),
+                8 => (3, serde_json::to_vec(&v).unwrap()),
+                9 => (1, beve::to_vec(&v).unwrap()),
+                10 => (*self.rng.pick(&[0u16, 4, 77]), serde_json::to_vec(&v).unwrap()),
+                _ => (2, b"{not json".to_vec()),
+            };
+            let j = serde_json::from_slice::<Value>(&body).ok();
+            let b = catch(|| beve::from_slice::<Value>(&body).ok()).unwrap_or(None);
+            let decoded = match bfmt { 2 | 3 => j.clone(), 1 => b.clone(), _ => None };
+            let canon = decoded.as_ref().map(|d| serde_json::to_vec(d).unwrap()).unwrap_or_default();
+            // whole-(sub)struct writes: these bodies are never objects, so serde rejects them for every struct type
+            self.push("dstruct", &format!("{} {} {} {} {} {}{}00 0", shex(root), shex(&path), bfmt, hex(&body), hex(&canon), j.is_some() as u8, b.is_some() as u8));
+        }
+    }
+
     // ---- (iv) twins
     fn twin(&mut self, kind: &str, bfmt: u16, body: Vec<u8>) {
         let blocking = matches!(kind, "json" | "jsonctx" | "typed" | "typedctx") && self.rng.chance(1, 2);
@@ -1107,7 +1256,7 @@ const BFMTS: &[u16] = &[0, 1, 1, 1, 2, 2, 3, 3, 4, 255, 4096, 65535];
 fn hints_for(kind: &str, body: &[u8]) -> String {
     let b = |x: bool| if x { '1' } else { '0' };
     let (j, bv) = match kind {
-        "json" | "jsonctx" => (
+        "json" | "jsonctx" | "struct" => (
             catch(|| serde_json::from_slice::<Value>(body).is_ok()).unwrap_or(false),
             catch(|| beve::from_slice::<Value>(body).is_ok()).unwrap_or(false),
         ),
@@ -1150,6 +1299,9 @@ fn generate(args: &Args) -> Vec<String> {
     for _ in 0..n_struct {
         g.struct_paths();
     }
+    for _ in 0..(if thorough { 6000 } else { 250 }) {
+        g.derived_scenario();
+    }
     // every kind × every format code, several bodies each
     for _ in 0..n_twin_rounds {
         for kind in KINDS {
@@ -1168,7 +1320,7 @@ fn main() {
     let args = Args::parse();
     quiet_panics();
     let mut out = Out::new(&args.out);
-    out.rule = "(i) random registration orders of routes (all with_* registrars), registry mounts, struct mounts and tracing middleware over small overlapping path pools, a `get` after every registration; non-trivial = some middleware or mount present. (ii) prefix/path pairs built from the prefix (itself, normalised, minus a char, plus tails with and without '/'); (iii) struct mounts with relative paths of 0..40 segments biased to 15/16/17/18/40, empty segments, well-formed ~0/~1 escapes; (iv) every handler kind x body-format codes {0..4,255,4096,65535} x valid/near-valid/arbitrary bodies through handle/handle_with_ctx/handle_view of the plain, blocking and middleware-wrapped handler; non-trivial = reaches the decoder or a known format code".into();
+    out.rule = "(i) random registration orders of routes (all with_* registrars), registry mounts, struct mounts and tracing middleware over small overlapping path pools, a `get` after every registration; non-trivial = some middleware or mount present. (ii) prefix/path pairs built from the prefix (itself, normalised, minus a char, plus tails with and without '/'); (iii) struct mounts with relative paths of 0..40 segments biased to 15/16/17/18/40, empty segments, well-formed ~0/~1 escapes; (v) a #[derive(RepeStruct)] struct (plain / readonly / nested x2 fields, 3 methods) mounted at several roots via register_/with_struct_shared: reads, writes (JSON/UTF-8/BEVE/garbage/bad format), calls, invalid paths and subpaths, deep paths; (iv) every handler kind x body-format codes {0..4,255,4096,65535} x valid/near-valid/arbitrary bodies through handle/handle_with_ctx/handle_view of the plain, blocking and middleware-wrapped handler; non-trivial = reaches the decoder or a known format code".into();
     let lines = match args.replay_ops() {
         Some(l) => l,
         None => generate(&args),
@@ -1177,8 +1329,9 @@ fn main() {
         E2E_CAP.store(600, Ordering::SeqCst);
     }
     let mut sc = Scen::new();
+    let mut ds = DState::new();
     for line in &lines {
-        exec_line(&mut out, &mut sc, line);
+        exec_line(&mut out, &mut sc, &mut ds, line);
     }
     out.extra.insert("ops".into(), json!(lines.len()));
     out.finish();
